@@ -188,6 +188,180 @@ fn seq_fresh(rng: &mut StdRng, id: String, len: usize, out: &mut Vec<Value>, per
     }
 }
 
+// ------------------------------------------------------------------------------------------------ exhaustive short sequences
+#[derive(Clone, Copy, Debug)]
+enum XOp {
+    Var(usize),
+    Not(usize),
+    Bin(u8, usize, usize),
+    Res(usize, usize, bool),
+}
+
+fn eval_mask(bdd: &Bdd, h: usize, nv: usize) -> u32 {
+    // truth table of handle h over nv variables as a bit mask (bit A set iff assignment A satisfies), by walking the node table
+    let mut m = 0u32;
+    for a in 0..(1u32 << nv) {
+        let mut t = h;
+        let mut fuel = bdd.nodes.len() + 2;
+        while t > 1 && fuel > 0 {
+            let n = bdd.nodes[t];
+            t = if (a >> n.var().value()) & 1 == 1 { n.hi().value() } else { n.lo().value() };
+            fuel -= 1;
+        }
+        if t == 1 {
+            m |= 1 << a;
+        }
+    }
+    m
+}
+
+fn apply_x(bdd: &mut Bdd, op: XOp) -> Term {
+    match op {
+        XOp::Var(v) => bdd.variable(Var(v)),
+        XOp::Not(a) => bdd.not(Term(a)),
+        XOp::Bin(k, a, b) => match k {
+            0 => bdd.and(Term(a), Term(b)),
+            1 => bdd.or(Term(a), Term(b)),
+            2 => bdd.imp(Term(a), Term(b)),
+            3 => bdd.iff(Term(a), Term(b)),
+            _ => bdd.xor(Term(a), Term(b)),
+        },
+        XOp::Res(a, v, b) => bdd.restrict(Term(a), Var(v), b),
+    }
+}
+
+fn expected_mask(op: XOp, masks: &[u32], nv: usize) -> u32 {
+    let full = (1u32 << (1 << nv)) - 1;
+    let varmask = |v: usize| (0..(1u32 << nv)).filter(|a| (a >> v) & 1 == 1).fold(0u32, |m, a| m | (1 << a));
+    match op {
+        XOp::Var(v) => varmask(v),
+        XOp::Not(a) => !masks[a] & full,
+        XOp::Bin(k, a, b) => (match k {
+            0 => masks[a] & masks[b],
+            1 => masks[a] | masks[b],
+            2 => !masks[a] | masks[b],
+            3 => !(masks[a] ^ masks[b]),
+            _ => masks[a] ^ masks[b],
+        }) & full,
+        XOp::Res(a, v, b) => {
+            let mut m = 0u32;
+            for x in 0..(1u32 << nv) {
+                let y = if b { x | (1 << v) } else { x & !(1 << v) };
+                if (masks[a] >> y) & 1 == 1 {
+                    m |= 1 << x;
+                }
+            }
+            m
+        }
+    }
+}
+
+/// does the store, after this sequence on a fresh object, look right to a cheap in-harness test?  (a SELECTOR only: every
+/// sequence it flags, and a sample of the others, is recorded in full and judged by TLC like any other sequence)
+fn sequence_suspicious(ops: &[XOp], nv: usize) -> bool {
+    let mut bdd = Bdd::new();
+    let mut masks: Vec<u32> = vec![0, (1u32 << (1 << nv)) - 1];
+    for op in ops {
+        let before = bdd.nodes.len();
+        let want = expected_mask(*op, &masks, nv);
+        let r = apply_x(&mut bdd, *op).value();
+        if r >= bdd.nodes.len() || bdd.nodes.len() < before {
+            return true;
+        }
+        let now: Vec<u32> = (0..bdd.nodes.len()).map(|h| eval_mask(&bdd, h, nv)).collect();
+        if now[..before] != masks[..] || now[r] != want {
+            return true;
+        }
+        // canonical: pairwise different functions
+        let mut sorted = now.clone();
+        sorted.sort_unstable();
+        if sorted.windows(2).any(|w| w[0] == w[1]) {
+            return true;
+        }
+        masks = now;
+    }
+    false
+}
+
+fn record_sequence(id: String, ops: &[XOp], nv: usize, out: &mut Vec<Value>) {
+    let mut bdd = Bdd::new();
+    out.push(json!({"kind": "reset", "id": id, "nv": nv, "src": "fresh", "nodes": nodes_json(&bdd), "dump": dump_json(&bdd), "feat": features_json()}));
+    let mut rec = Rec { out: Vec::new(), seq: id.clone(), step: 0 };
+    for (i, op) in ops.iter().enumerate() {
+        let last = i + 1 == ops.len();
+        match *op {
+            XOp::Var(v) => { let r = bdd.variable(Var(v)); rec.push_op(&bdd, nv, "var", 0, 0, v, false, r.value(), last); }
+            XOp::Not(a) => { let r = bdd.not(Term(a)); rec.push_op(&bdd, nv, "not", a, 0, 0, false, r.value(), last); }
+            XOp::Bin(k, a, b) => {
+                let r = apply_x(&mut bdd, XOp::Bin(k, a, b));
+                rec.push_op(&bdd, nv, ["and", "or", "imp", "iff", "xor"][k as usize], a, b, 0, false, r.value(), last);
+            }
+            XOp::Res(a, v, b) => { let r = bdd.restrict(Term(a), Var(v), b); rec.push_op(&bdd, nv, "restrict", a, 0, v, b, r.value(), last); }
+        }
+    }
+    out.append(&mut rec.out);
+}
+
+/// EVERY operation sequence of the given length on a fresh store over nv variables (operands range over all handles that exist at
+/// that point): the orders nobody writes - a variable asked for after its negation exists, a literal created out of order - are
+/// all in here.  Far too many for TLC one by one: the selector above flags candidates, a fixed fraction is sampled.
+pub fn exhaustive_sequences(nv: usize, len: usize, sample_every: usize, out: &mut Vec<Value>) {
+    fn ops_for(n: usize, nv: usize) -> Vec<XOp> {
+        let mut v: Vec<XOp> = (0..nv).map(XOp::Var).collect();
+        for a in 0..n {
+            v.push(XOp::Not(a));
+            for var in 0..nv {
+                v.push(XOp::Res(a, var, false));
+                v.push(XOp::Res(a, var, true));
+            }
+            for b in 0..n {
+                for k in 0..5u8 {
+                    v.push(XOp::Bin(k, a, b));
+                }
+            }
+        }
+        v
+    }
+    let mut total = 0usize;
+    let mut flagged = 0usize;
+    let mut emitted = 0usize;
+    // depth-first over sequences; the table size after a prefix decides the alphabet of the next step
+    fn rec_enum(prefix: &mut Vec<XOp>, nv: usize, len: usize, sample_every: usize, total: &mut usize, flagged: &mut usize, emitted: &mut usize, out: &mut Vec<Value>) {
+        if prefix.len() == len {
+            *total += 1;
+            let bad = !matches!(std::panic::catch_unwind(std::panic::AssertUnwindSafe(|| sequence_suspicious(prefix, nv))), Ok(false));
+            if bad {
+                *flagged += 1;
+            }
+            if (bad && *emitted < 40) || *total % sample_every == 0 {
+                *emitted += 1;
+                breadcrumb(&json!({"kind": "exhaustive-sequence", "ops": format!("{:?}", prefix)}));
+                let id = format!("X{}", *total);
+                let mut local: Vec<Value> = Vec::new();
+                if std::panic::catch_unwind(std::panic::AssertUnwindSafe(|| record_sequence(id.clone(), prefix, nv, &mut local))).is_err() {
+                    local.clear();
+                    local.push(json!({"kind": "panic", "id": id, "what": format!("store operation panicked in sequence {:?}", prefix)}));
+                }
+                out.append(&mut local);
+            }
+            return;
+        }
+        // table size after the prefix (on the real store)
+        let n = match std::panic::catch_unwind(std::panic::AssertUnwindSafe(|| { let mut b = Bdd::new(); for op in prefix.iter() { apply_x(&mut b, *op); } b.nodes.len() })) {
+            Ok(n) => n,
+            _ => { *flagged += 1; return; }
+        };
+        for op in ops_for(n, nv) {
+            prefix.push(op);
+            rec_enum(prefix, nv, len, sample_every, total, flagged, emitted, out);
+            prefix.pop();
+        }
+    }
+    let mut prefix = Vec::new();
+    rec_enum(&mut prefix, nv, len, sample_every, &mut total, &mut flagged, &mut emitted, out);
+    out.push(json!({"kind": "stat", "id": format!("exhaustive-sequences-nv{}-len{}", nv, len), "sequences": total, "flagged": flagged, "emitted": emitted}));
+}
+
 /// sequences on the store of a compiled ADF (native or bridge), with semantics calls warming the caches
 fn seq_adf(rng: &mut StdRng, id: String, len: usize, out: &mut Vec<Value>) {
     let n = rng.gen_range(2..=5);
@@ -290,6 +464,13 @@ pub fn main(args: &[String]) {
         match k % 4 {
             0 | 1 => seq_fresh(&mut rng, format!("f{}", k), len, &mut recs, k % 8 == 1),
             _ => seq_adf(&mut rng, format!("a{}", k), len.min(14), &mut recs),
+        }
+    }
+    // every sequence of three operations on a fresh store over three variables (thorough: also four operations over two)
+    if nseq.is_none() {
+        exhaustive_sequences(3, 3, 4000, &mut recs);
+        if tier == "thorough" {
+            exhaustive_sequences(2, 4, 250_000, &mut recs);
         }
     }
     let mut f = std::io::BufWriter::new(std::fs::File::create(&out).expect("cannot create out file"));
